@@ -747,6 +747,11 @@ class Interp(Analyzer):
             return TOP
         lin = self.as_int(v, st)
         if lin is None:
+            if v[0] == 'bool' or from_ty == 'bool':
+                # `flag as iN`: 0 or 1
+                if v[0] == 'bool' and isinstance(v[1], tuple) and v[1][:1] == ('const',):
+                    return V_const(1 if v[1][1] else 0)
+                return ('int', self.fresh(st, to_ty, 0, 1, 'b2i'))
             if v[0] == 'discr':
                 # enum -> integer cast of a discriminant read: the declared discriminants of the possible variants
                 head, vs = v[2], v[3]
